@@ -1,18 +1,7 @@
 (* G09 — C09 (c) every flow-controlled octet is credited back at once; (d) processFrame terminates. *)
 From FwdLib Require Import Bytes.
-From G09 Require Import Tables H2Relay Ledger Term FlowBasics WinProofs PairBasics PairWin.
+From G09 Require Import Tables H2Relay Ledger Term FlowBasics WinProofs PairBasics Lift PairWin.
 Open Scope N_scope.
-
-Lemma wus_app a c : wus (a ++ c) = wus a ++ wus c.
-Proof.
-  induction a as [|f r IH]; [reflexivity|]. cbn [app wus]. destruct f; cbn [app]; rewrite ?IH; reflexivity.
-Qed.
-Lemma wus_conts id ch : wus (conts id ch) = [].
-Proof. induction ch as [|c r IH]; [reflexivity|]. cbn [conts]. destruct r; [reflexivity|]. cbn [wus]. exact IH. Qed.
-Lemma wus_send q : wus (send q) = [].
-Proof. destruct q; cbn [send wus]; rewrite ?wus_conts; reflexivity. Qed.
-Lemma wus_sends l : wus (sends l) = [].
-Proof. unfold sends. induction l as [|q r IH]; [reflexivity|]. cbn [flat_map]. rewrite wus_app, wus_send, IH. reflexivity. Qed.
 
 Section Codec.
   Variables dstate estate : Type.
@@ -23,6 +12,7 @@ Section Codec.
 
   Notation relay := (relay dstate estate).
   Notation pair := (pair dstate estate).
+  Notation pcore := (pcore dec dresize).
   Notation pstep := (pstep dec enc dresize eresize).
   Notation run := (H2Relay.run dec enc dresize eresize).
   Notation tstep_of := (tstep_of dstate estate).
@@ -36,13 +26,13 @@ Section Codec.
   Section Credit.
     Hypothesis Hcredit : credit_frame_length = true.
 
-    Lemma credit_step_ok (p : pair) from f orders : frame_wf f ->
-      credit_step (tstep_of from f orders (pstep p from f orders)) = true.
+    Lemma credit_step_core (p : pair) from f orders : frame_wf f ->
+      credit_step (tstep_of from f orders (pcore p from f orders)) = true.
     Proof.
       intro Hwf. unfold credit_step. cbn [t_ev t_status PairWin.tstep_of e_from e_frame].
       rewrite !frames_to_tstep.
-      destruct (s_status (pstep p from f orders)) eqn:Est; try reflexivity. cbn [negb orb].
-      revert Est. unfold pstep. cbv zeta.
+      destruct (s_status (pcore p from f orders)) eqn:Est; try reflexivity. cbn [negb orb].
+      revert Est. unfold pcore. cbv zeta.
       destruct f as [id es d flen|id es eh pr frag|id eh frag|id pm eh frag|id pr|id code|ack st|ack d|last code dbg|id inc|];
         cbn [frame_wf] in Hwf.
       - rewrite Hcredit. destruct (data_pieces _ _ id d es) as [ps|]; [|rewrite res_status; discriminate].
@@ -57,22 +47,39 @@ Section Codec.
           rewrite ?N.add_0_r, ?N.add_0_l, !N.eqb_refl. reflexivity.
       - destruct eh; [|intros _; no_wu].
         destruct (dec _ frag) as [[fields|] dst']; [|rewrite res_status; discriminate].
-        destruct (r_header _ _ _ _ _ _) as [[[me' em] q]|]; intros _; no_wu.
+        destruct (r_header _ _ _ _ _) as [[[me' em] q]|]; intros _; no_wu.
       - destruct eh; [|intros _; no_wu].
         destruct (dec _ _) as [[fields|] dst']; [|rewrite res_status; discriminate].
         cbn [r_cont]. destruct (r_cont _); [|rewrite res_status; discriminate].
-        destruct (complete _ _ _ _) as [[[me' em] q]|]; intros _; no_wu.
+        destruct (complete _ _ _) as [[[me' em] q]|]; intros _; no_wu.
       - destruct eh; [|intros _; no_wu].
         destruct (dec _ frag) as [[fields|] dst']; [|rewrite res_status; discriminate].
-        destruct (r_push _ _ _ _ _) as [[[me' em] q]|]; intros _; no_wu.
+        destruct (r_push _ _ _ _) as [[[me' em] q]|]; intros _; no_wu.
       - destruct (enqueue_emit _ _) as [fl em]. intros _; no_wu.
       - destruct (enqueue_emit _ _) as [fl em]. intros _; no_wu.
       - destruct ack; [intros _; no_wu|].
-        destruct (apply_settings _ _ _ _ _ _) as [[peer' acc'] ok]. destruct ok; intros _; no_wu.
+        pose proof (apply_settings_noW dstate estate dresize st orders (toward from p) [] ltac:(constructor)) as Hq.
+        destruct (apply_settings _ _ _ _ _) as [[peer' acc'] ok]. cbn [fst snd] in Hq.
+        destruct ok; intros _; rewrite ?res_to_from, ?res_to_other, (noW_wus _ Hq); reflexivity.
       - intros _; no_wu.
       - intros _; no_wu.
       - destruct (update_window _ _ _ _) as [fl em]. intros _; no_wu.
       - rewrite res_status; discriminate.
+    Qed.
+
+    Lemma credit_step_ok (p : pair) from f orders : frame_wf f ->
+      credit_step (tstep_of from f orders (pstep p from f orders)) = true.
+    Proof.
+      intro Hwf. pose proof (credit_step_core p from f orders Hwf) as Hc.
+      unfold credit_step in *. cbn [t_ev t_status PairWin.tstep_of e_from e_frame] in *. rewrite !frames_to_tstep in *.
+      destruct (pstep_cases dstate estate dec enc dresize eresize p from f orders) as [[oc [ec [os [es' [H1 [H2 Hs]]]]]] | Hs];
+        cbv zeta in Hs; rewrite Hs; [|reflexivity].
+      assert (Hw : forall x, wus (wire (s_to x (mkRes (mkPair (with_est (toC (s_pair (pcore p from f orders))) ec)
+                                                         (with_est (toS (s_pair (pcore p from f orders))) es')) oc os
+                                                 (s_status (pcore p from f orders)) (s_enq (pcore p from f orders))))) =
+                             wus (wire (s_to x (pcore p from f orders)))).
+      { intros [|]; cbn [s_to s_toC s_toS]; apply Prep_wus; assumption. }
+      rewrite !Hw. cbn [s_status]. exact Hc.
     Qed.
 
     Theorem credit_returned_run : forall evs (p : pair), hist_wf evs -> credit_returned (snd (run p evs)) = true.
@@ -130,111 +137,126 @@ Section Codec.
 
     Definition MaxOk (r : relay) : Prop := 16384 <= f_max (r_flow r).
 
+    Lemma maxes_pos_app a c : maxes_pos a -> maxes_pos c -> maxes_pos (a ++ c).
+    Proof. induction a as [|o r IH]; [auto|]. destruct o; cbn [app maxes_pos]; intros Ha Hc; try (apply IH; assumption). destruct Ha as [H1 H2]. split; [exact H1|apply IH; assumption]. Qed.
+    Lemma maxes_pos_oq l : maxes_pos (oq l).
+    Proof. induction l; cbn; auto. Qed.
+    Lemma maxes_pos_ow l : maxes_pos (ow l).
+    Proof. induction l; cbn; auto. Qed.
+
     Lemma apply_settings_max : forall l orders (peer : relay) acc,
-      MaxOk peer -> MaxOk (fst (fst (apply_settings dresize eresize l orders peer acc))).
+      MaxOk peer -> maxes_pos acc ->
+      MaxOk (fst (fst (apply_settings dresize l orders peer acc))) /\
+      maxes_pos (snd (fst (apply_settings dresize l orders peer acc))).
     Proof.
-      induction l as [|[k v] rest IH]; intros orders peer acc Hm; cbn [apply_settings]; [exact Hm|].
+      induction l as [|[k v] rest IH]; intros orders peer acc Hm Ha; cbn [apply_settings]; [split; assumption|].
       rewrite Hval. cbn [andb].
-      destruct (setting_valid k v) eqn:Ev; cbn [negb]; [|exact Hm].
-      destruct (k =? 1); [apply IH; exact Hm|].
+      destruct (setting_valid k v) eqn:Ev; cbn [negb]; [|split; assumption].
+      destruct (k =? 1).
+      { apply IH; [exact Hm|]. apply maxes_pos_app; [exact Ha|]. cbn. exact I. }
       destruct (k =? 4).
       - pose proof (f_max_update_init v (hd [] orders) (r_flow peer)) as H1.
         destruct (update_init v (hd [] orders) (r_flow peer)) as [fl e]. cbn [fst] in H1.
-        apply IH. unfold MaxOk in *. cbn [with_flow r_flow]. rewrite H1. exact Hm.
-      - destruct (k =? 5) eqn:E5; [|apply IH; exact Hm].
-        apply IH. unfold MaxOk. cbn [with_flow r_flow update_max f_max].
+        apply IH; [unfold MaxOk in *; cbn [with_flow r_flow]; rewrite H1; exact Hm|apply maxes_pos_app; [exact Ha|apply maxes_pos_oq]].
+      - destruct (k =? 5) eqn:E5; [|apply IH; assumption].
         apply N.eqb_eq in E5. subst k. unfold setting_valid in Ev. cbn in Ev.
-        apply andb_true_iff in Ev as [Ev _]. apply N.leb_le in Ev. exact Ev.
-    Qed.
-
-    Lemma r_header_total (r : relay) id fields es p : MaxOk r -> r_header enc r id fields es p <> None.
-    Proof.
-      intro Hm. unfold r_header. destruct (enc (r_est r) fields) as [bytes est'].
-      pose proof (split_chunks_terminates (if prio_is_zero p then f_max (r_flow r) else u32_sub (f_max (r_flow r)) headers_priority_len)
-                    (f_max (r_flow r)) bytes ltac:(unfold MaxOk in Hm; lia)) as Hs.
-      destruct (split_chunks _ _ bytes); [|congruence].
-      destruct (enqueue_emit _ _). discriminate.
-    Qed.
-    Lemma r_push_total (r : relay) id pr fields : MaxOk r -> r_push enc r id pr fields <> None.
-    Proof.
-      intro Hm. unfold r_push. destruct (enc (r_est r) fields) as [bytes est'].
-      pose proof (split_chunks_terminates (u32_sub (f_max (r_flow r)) push_promise_meta_len)
-                    (f_max (r_flow r)) bytes ltac:(unfold MaxOk in Hm; lia)) as Hs.
-      destruct (split_chunks _ _ bytes); [|congruence].
-      destruct (enqueue_emit _ _). discriminate.
+        apply andb_true_iff in Ev as [Ev _]. apply N.leb_le in Ev.
+        apply IH; [unfold MaxOk; cbn [with_flow r_flow update_max f_max]; exact Ev|].
+        apply maxes_pos_app; [exact Ha|cbn; split; [lia|exact I]].
     Qed.
 
     Ltac keep_max Hme Hpeer :=
-      rewrite ?res_status, ?res_toward_from, ?res_toward_other;
-      (split; [discriminate|split; [exact Hpeer|exact Hme]]).
+      rewrite ?res_status, ?res_toward_from, ?res_toward_other, ?res_to_from, ?res_to_other;
+      (split; [discriminate|split; [exact Hpeer|split; [exact Hme|split; (exact I || apply maxes_pos_oq || apply maxes_pos_ow || (cbn; exact I))]]]).
 
-    Lemma step_terminates (p : pair) from f orders :
+    Lemma core_terminates (p : pair) from f orders :
       MaxOk (toward from p) -> MaxOk (toward (other from) p) ->
-      s_status (pstep p from f orders) <> Diverge /\
-      MaxOk (toward from (s_pair (pstep p from f orders))) /\
-      MaxOk (toward (other from) (s_pair (pstep p from f orders))).
+      s_status (pcore p from f orders) <> Diverge /\
+      MaxOk (toward from (s_pair (pcore p from f orders))) /\
+      MaxOk (toward (other from) (s_pair (pcore p from f orders))) /\
+      maxes_pos (s_to from (pcore p from f orders)) /\ maxes_pos (s_to (other from) (pcore p from f orders)).
     Proof.
-      intros Hpeer Hme. unfold pstep. cbv zeta.
-      set (me := toward (other from) p) in *. set (peer := toward from p) in *.
+      intros Hpeer Hme. unfold pcore. cbv zeta.
+      remember (toward (other from) p) as me eqn:Eme. remember (toward from p) as peer eqn:Epeer. clear Eme Epeer.
       destruct f as [id es d flen|id es eh pr frag|id eh frag|id pm eh frag|id pr|id code|ack st|ack d|last code dbg|id inc|].
       - destruct (data_pieces_total (Datatypes.S (length d)) (f_max (r_flow me)) id d es) as [ps Hps];
           [unfold MaxOk in Hme; lia|lia|].
         rewrite Hps.
         pose proof (f_max_enqueue_all ps (with_buf (r_flow me) id (buf_or_new (r_flow me) id))) as H1.
         destruct (enqueue_all ps _) as [fl em]. cbn [fst] in H1.
-        rewrite res_status, res_toward_from, res_toward_other.
-        split; [discriminate|split; [exact Hpeer|]]. unfold MaxOk in *. cbn [with_flow r_flow]. rewrite H1. exact Hme.
+        assert (Hm' : MaxOk (with_flow me fl)) by (unfold MaxOk in *; cbn [with_flow r_flow]; rewrite H1; exact Hme).
+        keep_max Hm' Hpeer.
       - destruct eh; [|keep_max Hme Hpeer].
         destruct (dec _ frag) as [[fields|] dst']; [|keep_max Hme Hpeer].
-        set (me1 := mkRelay _ _ _ dst' _).
-        assert (Hm1 : MaxOk me1) by exact Hme.
-        pose proof (r_header_total me1 id fields es pr Hm1) as Ht.
-        destruct (r_header enc me1 id fields es pr) as [[[me' em] q]|] eqn:Eh; [|congruence].
+        set (me1 := mkRelay _ _ _ dst' _). assert (Hm1 : MaxOk me1) by exact Hme.
+        pose proof (r_header_some dstate estate me1 id fields es pr) as Ht.
+        destruct (r_header me1 id fields es pr) as [[[me' em] q]|] eqn:Eh; [|congruence].
         apply r_header_flow in Eh as [Ee _].
         pose proof (f_max_enqueue_emit q (r_flow me1)) as H1. rewrite Ee in H1. cbn [fst] in H1.
-        rewrite res_status, res_toward_from, res_toward_other.
-        split; [discriminate|split; [exact Hpeer|]]. unfold MaxOk in *. rewrite H1. exact Hm1.
+        assert (Hm' : MaxOk me') by (unfold MaxOk in *; rewrite H1; exact Hm1).
+        keep_max Hm' Hpeer.
       - destruct eh; [|keep_max Hme Hpeer].
         destruct (dec _ _) as [[fields|] dst']; [|keep_max Hme Hpeer].
-        set (me1 := mkRelay _ _ _ dst' _).
-        assert (Hm1 : MaxOk me1) by exact Hme.
+        set (me1 := mkRelay _ _ _ dst' _). assert (Hm1 : MaxOk me1) by exact Hme.
         destruct (r_cont me1) as [c|] eqn:Ec; [|keep_max Hme Hpeer].
-        assert (Ht : complete enc me1 id fields <> None).
-        { unfold complete. rewrite Ec. destruct c; [apply r_header_total|apply r_push_total]; exact Hm1. }
-        destruct (complete enc me1 id fields) as [[[me' em] q]|] eqn:Eh; [|congruence].
+        assert (Ht : complete me1 id fields <> None).
+        { unfold complete. rewrite Ec. destruct c; [apply r_header_some|apply r_push_some]. }
+        destruct (complete me1 id fields) as [[[me' em] q]|] eqn:Eh; [|congruence].
         apply complete_flow in Eh as [Ee _].
         pose proof (f_max_enqueue_emit q (r_flow me1)) as H1. rewrite Ee in H1. cbn [fst] in H1.
-        rewrite res_status, res_toward_from, res_toward_other.
-        split; [discriminate|split; [exact Hpeer|]]. unfold MaxOk in *. rewrite H1. exact Hm1.
+        assert (Hm' : MaxOk me') by (unfold MaxOk in *; rewrite H1; exact Hm1).
+        keep_max Hm' Hpeer.
       - destruct eh; [|keep_max Hme Hpeer].
         destruct (dec _ frag) as [[fields|] dst']; [|keep_max Hme Hpeer].
-        set (me1 := mkRelay _ _ _ dst' _).
-        assert (Hm1 : MaxOk me1) by exact Hme.
-        pose proof (r_push_total me1 id pm fields Hm1) as Ht.
-        destruct (r_push enc me1 id pm fields) as [[[me' em] q]|] eqn:Eh; [|congruence].
+        set (me1 := mkRelay _ _ _ dst' _). assert (Hm1 : MaxOk me1) by exact Hme.
+        pose proof (r_push_some dstate estate me1 id pm fields) as Ht.
+        destruct (r_push me1 id pm fields) as [[[me' em] q]|] eqn:Eh; [|congruence].
         apply r_push_flow in Eh as [Ee _].
         pose proof (f_max_enqueue_emit q (r_flow me1)) as H1. rewrite Ee in H1. cbn [fst] in H1.
-        rewrite res_status, res_toward_from, res_toward_other.
-        split; [discriminate|split; [exact Hpeer|]]. unfold MaxOk in *. rewrite H1. exact Hm1.
+        assert (Hm' : MaxOk me') by (unfold MaxOk in *; rewrite H1; exact Hm1).
+        keep_max Hm' Hpeer.
       - pose proof (f_max_enqueue_emit (QPrio id pr) (r_flow me)) as H1.
         destruct (enqueue_emit _ _) as [fl em]. cbn [fst] in H1.
-        rewrite res_status, res_toward_from, res_toward_other.
-        split; [discriminate|split; [exact Hpeer|]]. unfold MaxOk in *. cbn [with_flow r_flow]. rewrite H1. exact Hme.
+        assert (Hm' : MaxOk (with_flow me fl)) by (unfold MaxOk in *; cbn [with_flow r_flow]; rewrite H1; exact Hme).
+        keep_max Hm' Hpeer.
       - pose proof (f_max_enqueue_emit (QRst id code) (r_flow me)) as H1.
         destruct (enqueue_emit _ _) as [fl em]. cbn [fst] in H1.
-        rewrite res_status, res_toward_from, res_toward_other.
-        split; [discriminate|split; [exact Hpeer|]]. unfold MaxOk in *. cbn [with_flow r_flow]. rewrite H1. exact Hme.
+        assert (Hm' : MaxOk (with_flow me fl)) by (unfold MaxOk in *; cbn [with_flow r_flow]; rewrite H1; exact Hme).
+        keep_max Hm' Hpeer.
       - destruct ack; [keep_max Hme Hpeer|].
-        pose proof (apply_settings_max st orders peer [] Hpeer) as Hm.
-        destruct (apply_settings _ _ _ _ _ _) as [[peer' acc'] ok]. cbn [fst] in Hm.
-        destruct ok; rewrite res_status, res_toward_from, res_toward_other; (split; [discriminate|split; [exact Hm|exact Hme]]).
+        pose proof (apply_settings_max st orders peer [] Hpeer I) as [Hm Hp].
+        destruct (apply_settings _ _ _ _ _) as [[peer' acc'] ok]. cbn [fst snd] in Hm, Hp.
+        destruct ok; rewrite res_status, res_toward_from, res_toward_other, res_to_from, res_to_other;
+          (split; [discriminate|split; [exact Hm|split; [exact Hme|split; [exact Hp|cbn; exact I]]]]).
       - keep_max Hme Hpeer.
       - keep_max Hme Hpeer.
       - pose proof (f_max_update_window id inc (hd [] orders) (r_flow peer)) as H1.
         destruct (update_window _ _ _ _) as [fl em]. cbn [fst] in H1.
-        rewrite res_status, res_toward_from, res_toward_other.
-        split; [discriminate|split; [|exact Hme]]. unfold MaxOk in *. cbn [with_flow r_flow]. rewrite H1. exact Hpeer.
+        assert (Hm' : MaxOk (with_flow peer fl)) by (unfold MaxOk in *; cbn [with_flow r_flow]; rewrite H1; exact Hpeer).
+        keep_max Hme Hm'.
       - keep_max Hme Hpeer.
+    Qed.
+
+    Lemma step_terminates (p : pair) : forall from f orders,
+      MaxOk (toC p) -> MaxOk (toS p) ->
+      s_status (pstep p from f orders) <> Diverge /\
+      MaxOk (toC (s_pair (pstep p from f orders))) /\ MaxOk (toS (s_pair (pstep p from f orders))).
+    Proof.
+      intros from f orders HC HS.
+      assert (Hb : MaxOk (toward from p) /\ MaxOk (toward (other from) p)) by (destruct from; cbn; auto).
+      destruct (core_terminates p from f orders (proj1 Hb) (proj2 Hb)) as [Hnd [H1 [H2 [P1 P2]]]].
+      assert (HCS : MaxOk (toC (s_pair (pcore p from f orders))) /\ MaxOk (toS (s_pair (pcore p from f orders))) /\
+                    maxes_pos (s_toC (pcore p from f orders)) /\ maxes_pos (s_toS (pcore p from f orders)))
+        by (destruct from; cbn in *; auto).
+      destruct HCS as [HC' [HS' [PC PS]]].
+      unfold H2Relay.pstep.
+      pose proof (run_script_total estate enc eresize (s_toC (pcore p from f orders)) (r_est (toC (s_pair (pcore p from f orders))))
+                    (f_max (r_flow (toC p))) ltac:(unfold MaxOk in HC; lia) PC) as T1.
+      pose proof (run_script_total estate enc eresize (s_toS (pcore p from f orders)) (r_est (toS (s_pair (pcore p from f orders))))
+                    (f_max (r_flow (toS p))) ltac:(unfold MaxOk in HS; lia) PS) as T2.
+      destruct (run_script enc eresize _ (f_max (r_flow (toC p))) _) as [[oc ec]|]; [|congruence].
+      destruct (run_script enc eresize _ (f_max (r_flow (toS p))) _) as [[os es']|]; [|congruence].
+      cbn [s_status s_pair toC toS]. split; [exact Hnd|]. split; [exact HC'|exact HS'].
     Qed.
 
     Theorem no_divergence_run : forall evs (p : pair), MaxOk (toC p) -> MaxOk (toS p) ->
@@ -242,12 +264,9 @@ Section Codec.
     Proof.
       induction evs as [|e r IH]; intros p HC HS; [reflexivity|].
       destruct e as [from f orders]. cbn [H2Relay.run e_from e_frame e_orders].
-      assert (Hboth : MaxOk (toward from p) /\ MaxOk (toward (other from) p)) by (destruct from; cbn; auto).
-      destruct (step_terminates p from f orders (proj1 Hboth) (proj2 Hboth)) as [Hnd [H1 H2]].
-      assert (HC' : MaxOk (toC (s_pair (pstep p from f orders))) /\ MaxOk (toS (s_pair (pstep p from f orders))))
-        by (destruct from; cbn in *; auto).
+      destruct (step_terminates p from f orders HC HS) as [Hnd [HC' HS']].
       destruct (s_status (pstep p from f orders)) eqn:Est; try congruence.
-      - specialize (IH (s_pair (pstep p from f orders)) (proj1 HC') (proj2 HC')).
+      - specialize (IH (s_pair (pstep p from f orders)) HC' HS').
         destruct (run (s_pair (pstep p from f orders)) r) as [p' ts]. cbn [fst snd] in *.
         unfold no_divergence in *. cbn [forallb t_status]. exact IH.
       - cbn [snd]. unfold no_divergence. cbn [forallb t_status]. reflexivity.
